@@ -124,13 +124,19 @@ structure M11 where
   lastTag : Option Nat := none
   fails : List String := []
 
+/-- a base start whose tag is not the one of the latest upstream start -/
+def staleStart (last : Option Nat) : TObs → Bool
+  | .bStart tag _ => some tag != last
+  | _ => false
+
+/-- tag of the latest upstream start after this request -/
+def M11.tagAfter (m : M11) : TReq → Option Nat
+  | .start _ tag _ => some tag
+  | _ => m.lastTag
+
 def M11.step (m : M11) (s : TStep) : M11 :=
-  let m := match s.req with
-    | .start _ tag _ => { m with lastTag := some tag }
-    | _ => m
-  let bad := s.obs.any fun o => match o with
-    | .bStart tag _ => some tag != m.lastTag
-    | _ => false
+  let m := { m with lastTag := m.tagAfter s.req }
+  let bad := s.obs.any (staleStart m.lastTag)
   if bad then { m with fails := m.fails ++ ["C11:file-started-with-stale-threshold-or-background"] } else m
 
 def monC11Thr (tr : List TStep) : List String := (tr.foldl M11.step {}).fails
